@@ -92,8 +92,11 @@ def program_for(bp, decl, seed, horizon=HORIZON, with_ic=None, region_mode='rand
     qrnd = random.Random('%s|%s|queries' % (bp['name'], seed))
     queries = {}
     if qrnd.random() < 0.6 and len(decl) >= 2:
-        for what in qrnd.sample(['zone', 'dump', 'loginfo', 'model_sectors'], 2):
+        for what in qrnd.sample(['zone', 'dump', 'loginfo', 'model_sectors', 'lookup'], 2):
             queries.setdefault(qrnd.randint(1, len(decl) - 1), []).append(what)
+    if bp['external'] == 'last' and qrnd.random() < 0.5:
+        # the country list will still grow (the ExternalSector comes last): also ask right at the start
+        queries.setdefault(1, []).append(qrnd.choice(['lookup', 'loginfo']))
     n_declared = 0
     for s in decl:
         d = secs[s - 1]
@@ -138,7 +141,7 @@ def program_for(bp, decl, seed, horizon=HORIZON, with_ic=None, region_mode='rand
         declared.add(s)
         n_declared += 1
         for what in queries.get(n_declared, []):
-            prog.append({'op': 'Query', 'what': what, 'country': d['cc']})
+            prog.append({'op': 'Query', 'what': what, 'country': d['cc'], 'code': d['code']})
         for x in d['extra']:
             prog.append({'op': 'AddVariable', 'sector': ref(s), 'name': x, 'desc': 'extra demand', 'eqn': '0.0'})
         for x in d.get('params', []):
